@@ -491,3 +491,28 @@ Definition feed_gen (eo adv drains cont : bool) (s : cstate) (chunk : bytes) : c
 Definition feed := feed_gen h2_headers_empty_frag_ok h2_cont_advance h2_stream_err_drains h2_dispatch_continues.
 
 Definition c_init : cstate := mkC [] fs_new [] false.
+
+(* ================================================================= sender side: header block fragmentation *)
+(* MServerConn.writeHeaders / MClientConn.writeHeaders: `for len(block) > 0 { frag := block[:min(len, max)]; block = block[len(frag):];
+   HEADERS (first) / CONTINUATION with END_HEADERS = (len(block) == 0) }`.  `le` (Gen h2_hdr_split_last_le): the fragment that
+   completes the block is the one for which the remaining block is <= max (true, as the loops above) or < max (false). *)
+Fixpoint split_block_gen (le : bool) (fuel : nat) (block : bytes) (mx : N) : list (bytes * bool) :=
+  match fuel with
+  | O => []
+  | S f =>
+    match block with
+    | [] => []
+    | _ => if (if le then len block <=? mx else len block <? mx) then [(block, true)]
+           else (firstn (N.to_nat mx) block, false) :: split_block_gen le f (skipn (N.to_nat mx) block) mx
+    end
+  end.
+
+Definition split_block (block : bytes) (mx : N) : list (bytes * bool) :=
+  split_block_gen h2_hdr_split_last_le (S (length block)) block mx.
+
+(* the frames written for the fragments: HEADERS first (END_STREAM as given, no padding/priority), then CONTINUATIONs *)
+Definition ser_fragments (sid : N) (es : bool) (frs : list (bytes * bool)) : bytes :=
+  match frs with
+  | [] => []
+  | (f0, e0) :: r => ser_frame (AHeaders sid es e0 None f0 None) ++ flat_map (fun x => ser_frame (ACont sid (snd x) (fst x))) r
+  end.
